@@ -293,7 +293,7 @@ def gen_rust_regop(chip, o, replay=None):
         dom = ", ".join("%s in %d..=%d" % (n, *prange(k)) for n, k in o["params"]) or "no parameters"
         L.append("//@bounds %s on the register-file chip model: %s%s; arbitrary prior contents of all 127 registers%s; every register is compared after the operation (the listed ones against the specification, all others must be unchanged)"
                  % (o["id"], dom, ("; assuming " + " and ".join(o["assume"])) if o["assume"] else "", ("; prior state: " + " and ".join(o["assume_init"])) if o.get("assume_init") else ""))
-        L.append("//@encodes %s" % o.get("encodes", o["rust"].split("(")[0]))
+        L.append("//@encodes %s" % (o.get("encodes") or str(o["rust"]).split("(")[0]))
         if o["note"]:
             L.append("//@assumes %s" % o["note"])
     L += head(hid, o, replay)
@@ -724,6 +724,19 @@ def ops_sx1276():
                    note="the reference zeroes RegFifoTxBaseAddr (0x0E) here, the Rust driver in set_tx_rx_buffer_base_address: not compared on the reference side",
                    c="RADIO.lora_pkt_params.pld_len_in_bytes = (uint8_t)n;\nsx127x_write_buffer(&RADIO, 0, pl, (uint8_t)n);",
                    regs={0x0D: "0", 0x22: "n"}, free_c=[0x0E]))
+    O.append(regop("irq_tx_start", radio=RADIO_1276 % "kani::any()", cost=200,
+                   rust=["r.set_irq_params(Some(RadioMode::Transmit))", "r.do_tx()"], encodes="Sx127x::set_irq_params (Transmit), do_tx",
+                   assume_init=["r(0x40) == 0", "r(0x41) == 0"],
+                   note="IRQ mask + DIO mapping + TX start: the reference keeps the DIO mapping in a shadow copy (all zero after selecting LoRa) and pushes it in set_tx, the Rust driver read-modify-writes RegDioMapping1 in set_irq_params: compared for the shadow-consistent prior content 0; the reference also pushes the IQ registers here (not compared on its side)",
+                   c="sx127x_set_irq_mask(&RADIO, SX127X_IRQ_TX_DONE);\nsx127x_set_tx(&RADIO);",
+                   regs={0x11: "0xF7", 0x40: "0x40", 0x01: "0x83"}, free_c=[0x33, 0x3B]))
+    O.append(regop("irq_cad_start", radio=RADIO_1276 % "kani::any()", cost=200,
+                   rust_pre="let mp = ModulationParams { spreading_factor: SpreadingFactor::_7, bandwidth: Bandwidth::_125KHz, coding_rate: CodingRate::_4_5, low_data_rate_optimize: 0, frequency_in_hz: 868_100_000 };",
+                   rust=["r.set_irq_params(Some(RadioMode::ChannelActivityDetection))", "r.do_cad(&mp)"], encodes="Sx127x::set_irq_params (CAD), do_cad",
+                   assume_init=["r(0x40) == 0", "r(0x41) == 0"],
+                   note="as irq_tx_start; the Rust driver also re-asserts the LNA gain (RegLna), the reference leaves it: not compared on the Rust side",
+                   c="sx127x_set_irq_mask(&RADIO, SX127X_IRQ_CAD_DONE | SX127X_IRQ_CAD_DETECTED);\nsx127x_set_cad(&RADIO);",
+                   regs={0x11: "0xFA", 0x40: "0x80", 0x01: "0x87"}, free_rust=[0x0C]))
     O.append(regop("tx_start", radio=RADIO_1276 % "kani::any()", rust="r.do_tx()", encodes="Sx127x::do_tx",
                    note="the reference's set_tx also pushes the IQ configuration (0x33, 0x3B) and its shadow DIO mapping (0x40, 0x41) at this point; the Rust driver does so in set_packet_params / set_irq_params: not compared on the reference side",
                    c="sx127x_set_tx(&RADIO);", regs={1: "0x83"}, free_c=[0x33, 0x3B, 0x40, 0x41]))
@@ -737,7 +750,7 @@ RADIO_1272 = "Sx127x::new(RegSpi::new(), MockIv::new(), Config { chip: Sx1272, t
 def ops_sx1272():
     O = []
     for o in ops_sx1276():
-        if o["id"] in ("rf_freq", "standby", "sleep", "sync_word", "symb_timeout", "payload", "tx_start"):
+        if o["id"] in ("rf_freq", "standby", "sleep", "sync_word", "symb_timeout", "payload", "tx_start", "irq_tx_start", "irq_cad_start"):
             o = dict(o)
             o["radio"] = RADIO_1272 % "kani::any()"
             O.append(o)
